@@ -12,7 +12,9 @@ RULE = ("(a) config::data_dir / db_path / log_path under every combination of $X
         "traffic of didOpen/didChange/codeAction/didClose sessions vs the Lean server model in no-store mode, and the property itself on "
         "the implementation (warning shown, nothing published, codeAction null, every request answered); (c) Backend::build over a "
         "database damaged at every page boundary and at random byte ranges (main file and live WAL) and under a foreign write lock: every "
-        "published diagnostic must be one the undamaged database yields or be backed by rows still readable; (d) a failure injected into "
+        "published diagnostic must be one the undamaged database yields or be backed by rows still readable; (e) the real server PROCESS "
+        "(run_server over stdio: logging set-up + Backend::new) started under each data-directory situation must answer initialize and "
+        "shutdown; (d) a failure injected into "
         "each VersionStorer operation after a healthy start (reads: vs the model with failing reads; writes: liveness and backing). "
         "non-trivial = the session shows the warning, or a read/write fails; distinct by scenario kind and damage position")
 ASSUMPTIONS = ["the sandbox runs as root: permission-based damage (read-only file or directory) cannot fail here and is not exercised; "
@@ -343,4 +345,34 @@ def streams(ctx):
         return c.get("tag") is not None
 
     st_b = Stream("unusable-cache", cases, nontrivial=nt, derive=derive, model_eq=lambda i, m: True, shrinkable=False, nt_on_impl=True)
-    return [st_a, st_b]
+    # ---- (e) the production PROCESS: run_server over stdio (logging set-up + Backend::new), as main.rs runs it
+    pc, pmeta = [], []
+    for kind in ["usable", "file-in-the-way", "file-in-the-way-deep", "log-is-a-directory", "db-is-a-directory", "dir-is-a-file"] * (1 if quick else 4):
+        root = fresh("proc")
+        L = []
+        if kind == "usable":
+            xdg = root
+        elif kind == "file-in-the-way":
+            L.append(vlib.line("fs.mkfile", root, "x")); xdg = root
+        elif kind == "file-in-the-way-deep":
+            L.append(vlib.line("fs.mkfile", root, "x")); xdg = root + "/a/b"
+        elif kind == "log-is-a-directory":
+            L.append(vlib.line("fs.mkdir", root + "/version-lsp/version-lsp.log")); xdg = root
+        elif kind == "db-is-a-directory":
+            L.append(vlib.line("fs.mkdir", root + "/version-lsp/versions.db")); xdg = root
+        else:
+            L.append(vlib.line("fs.mkdir", root)); L.append(vlib.line("fs.mkfile", root + "/version-lsp", "x")); xdg = root
+        L.append(vlib.line("srv.probe", xdg))
+        for l in L:
+            pc.append({"req": l, "tag": ("process", kind) if l.startswith("srv.probe") else None}); pmeta.append(kind)
+
+    def derive_p(cs, impl):
+        der = []
+        for i, (c, o, kind) in enumerate(zip(cs, impl, pmeta)):
+            if c["req"].startswith("srv.probe") and not o.startswith("answered"):
+                why = vlib.unhx(o.split(" ")[-1]) if o.startswith("exited") and len(o.split(" ")) > 3 else o
+                der.append({"req": vlib.line("ml.settle"), "index": i, "history": [x["req"] for x in cs[max(0, i - 2):i + 1]],
+                            "check": (lambda out, kind=kind, o=o, why=why: ("violation", f"data directory situation '{kind}': the server process did not answer initialize/shutdown ({o.split(' ')[0]} {o.split(' ')[1] if ' ' in o else ''}: {why})"))})
+        return der
+    st_p = Stream("server-process", pc, nontrivial=lambda c, o: c.get("tag") is not None, derive=derive_p, model_eq=lambda i, m: True, shrinkable=False, nt_on_impl=True)
+    return [st_a, st_b, st_p]
